@@ -43,7 +43,7 @@ def run(chk, replay=None):
         return r.stdout if '=====T2' in r.stdout else None
     try:
         # 1. decisions: every sequence of up to three interface attributes; spellings; gate
-        lines, expect = [], []
+        lines, expect, docs_of = [], [], {}
         vals = ['in', 'out', 'none']
         seqs = [[]] + [[a] for a in itertools.product(['pub', 'priv'], vals)]
         seqs += [[(k1, v1), (k2, v2)] for k1, k2 in (('pub', 'priv'), ('priv', 'pub')) for v1 in vals for v2 in vals]
@@ -71,6 +71,54 @@ def run(chk, replay=None):
             o = real(doc, 'permissive')
             nested = '1' if (o and re.search(r'^  \(component #62 ', sec(o, 'D0', 'I0'), re.M)) else '0'
             lines.append('(group %s)' % ' '.join('_' if v is None else '#' + v.encode().hex() for v in gs)); expect.append(nested)
+        # several encapsulation groups: a random forest over up to seven components, its (child, parent) pairs dealt out to groups
+        # (subtrees cut out into groups of their own, roots dealt out, groups in any order); the hierarchy of the transformed model
+        # against the model's parent map (Props.C14.groups_spec)
+        for k in range(40 if chk.tier == 'quick' else 400):
+            names = ['n%d' % i for i in range(rng.randint(2, 7))]
+            parent = {}
+            for i, nm in enumerate(names[1:], 1):
+                if rng.random() < 0.8:
+                    parent[nm] = names[rng.randrange(i)]
+            kids = {nm: [c for c in names if parent.get(c) == nm] for nm in names}
+            cut = set(nm for nm in names if nm in parent and kids[nm] and rng.random() < 0.5)
+            def ref(nm, top):
+                sub = [] if (nm in cut and not top) else [ref(c, False) for c in kids[nm]]
+                return (nm, sub)
+            roots = [nm for nm in names if nm not in parent and kids[nm]] + sorted(cut)
+            if not roots:
+                continue
+            trees = [ref(nm, True) for nm in roots]
+            rng.shuffle(trees)
+            ngroups = rng.randint(1, len(trees))
+            groups = [[] for _ in range(ngroups)]
+            for t_ in trees:
+                groups[rng.randrange(ngroups)].append(t_)
+            groups = [g for g in groups if g]
+            def xml(t_):
+                return '<component_ref component="%s"%s' % (t_[0], '/>' if not t_[1] else '>' + ''.join(xml(c) for c in t_[1]) + '</component_ref>')
+            def wire(t_):
+                return '(r %s%s)' % (t_[0], ''.join(' ' + wire(c) for c in t_[1]))
+            comps = list(names); rng.shuffle(comps)
+            doc = '<?xml version="1.0" encoding="UTF-8"?>\n<model xmlns="%s" name="m">%s%s</model>\n' % (
+                NSV[rng.choice(['10', '11'])], ''.join('<component name="%s"/>' % c for c in comps),
+                ''.join('<group><relationship_ref relationship="encapsulation"/>%s</group>' % ''.join(xml(t_) for t_ in g) for g in groups))
+            o = real(doc, 'permissive')
+            got = '<crash>'
+            if o:
+                stack, par = [], {}
+                for l in sec(o, 'D0', 'I0').split('\n'):
+                    m = re.match(r'^( *)\(component #([0-9a-f]*) ', l)
+                    if m:
+                        d = len(m.group(1)) // 2
+                        nm = bytes.fromhex(m.group(2)).decode()
+                        stack = stack[:d]
+                        par[nm] = stack[-1] if stack else '-'
+                        stack.append(nm)
+                got = ' '.join('%s>%s' % (nm, par.get(nm, '?')) for nm in names)
+            stats['group_dealings'] = stats.get('group_dealings', 0) + 1
+            lines.append('(groups 1 (names %s) %s)' % (' '.join(names), ' '.join('(g %s)' % ' '.join(wire(t_) for t_ in g) for g in groups))); expect.append(got)
+            docs_of[len(lines) - 1] = doc
         model = run_lines(drv, ['legacy'], lines)[1] if os.path.exists(drv) else [''] * len(lines)
         stats['decision_cases'] = len(lines)
         for l, e, m in zip(lines, expect, model):
